@@ -48,6 +48,7 @@ var c15Cases = []c15Case{
 	{src: "type Query { a: Int @d(s: §S) } §D directive @d(§D s: String = §S n: Int = §I) on FIELD_DEFINITION", names: []string{"d"}},
 	{src: "type Query { i: I u: U s: Sc } §D interface I { §D x: Int } §D union U = A | B type A implements I { x: Int } type B { y: Int } §D scalar Sc"},
 	{src: "type Query { a: Int @deprecated(reason: §S) b(x: [String!]! = [§S]): [[Int]!] }"},
+	{src: "type Query { a: Int @d(n: null) b: Int @d c: Int @d(n: 3, s: §S, l: [1, 2], o: {k: true}, e: X) } directive @d(n: Int = §I s: String = \"z\" l: [Int] o: In2 e: E = X) on FIELD_DEFINITION enum E { X Y } input In2 { k: Boolean }", names: []string{"d"}},
 	{src: "type Query { f(a: Float = 2500000.5 b: Float = 1e21 c: Float = 1e-7 d: [Float] = [0.5, -6.02e23] e: Float64 = 1.7976931348623157e308 s: String = §S): Int }"},
 }
 
